@@ -366,6 +366,29 @@ fn case<T: Obs>(c: &mut Ctx, x: T, dur: TimeDelta, tag: &str) {
                         Ok(Err(RoundingError::TimestampExceedsLimit)) if !r_in => c.count(&format!("{nm}:result-left-window")),
                         other => c.fail(&what("not idempotent"), &format!("{ctxs} -> {:?} -> {:?}", r, other)),
                     }
+                } else {
+                    // leap-second input, the second call (Props/C17.lean `naive_result_leap_properties`,
+                    // `zoned_result_leap_properties`): if the move stays before the end of the leap second the
+                    // result is a fixed point (or, outside the window, exactly TimestampExceedsLimit); if it
+                    // passes the end, the result (stamp m - 10^9) is a fixed point exactly when the span
+                    // divides one second
+                    let m = op.spec(w, span);
+                    let passes_end = x.subsec() as i128 + (m - w) >= 2 * NS;
+                    let again = guard(|| op.call(r, dur));
+                    let same = matches!(&again, Ok(Ok(r2)) if *r2 == r);
+                    let in64 = |v: i128| (I64_MIN..=I64_MAX).contains(&v);
+                    let ok = if !passes_end {
+                        if in64(m) { same } else { again == Ok(Err(RoundingError::TimestampExceedsLimit)) }
+                    } else {
+                        same == (in64(m - NS) && NS % span == 0)
+                    };
+                    if !ok {
+                        c.fail(&what("leap-second input: the second call is not what the theorem says (fixed point iff the move stays in the leap second, or the span divides one second)"), &format!("{ctxs} -> {:?} -> {:?}", r, again));
+                    }
+                    c.count(&format!(
+                        "leap:second call:{}",
+                        if same { if passes_end { "fixed point past the end (span divides 1 s)" } else { "fixed point" } } else if passes_end { "moves again (past the end, span does not divide 1 s; F19)" } else { "result left the window" }
+                    ));
                 }
             }
         }
